@@ -211,10 +211,12 @@ func (l *queue) PurgeOlderThan(when time.Time) error {
 		// If this is the last segment, first append a new one allowing
 		// trimming to proceed.
 		if len(l.segments) == 1 {
-			_, err := l.addSegment()
+			segment, err := l.addSegment()
 			if err != nil {
 				return err
 			}
+			// the old (and only) segment is about to be removed: appends go to the new one
+			l.tail = segment
 		}
 
 		if err := l.trimHead(); err != nil {
